@@ -57,16 +57,25 @@ def slice_(
 
     pipeline: list[Any] = []
 
-    if _stop >= 0:
-        pipeline.append(ops.take(_stop))
-
-    if _start > 0:
-        pipeline.append(ops.skip(_start))
-    elif _start < 0:
+    if _start < 0 and 0 < _stop < maxsize:
+        # The lower bound is relative to the end of the stream and the upper
+        # bound to its start: tag the elements with their index, keep the
+        # last -start of them and drop those at or past stop.
+        pipeline.append(ops.map_indexed(lambda x, i: (i, x)))
         pipeline.append(ops.take_last(-_start))
+        pipeline.append(ops.filter(lambda ix: ix[0] < _stop))
+        pipeline.append(ops.map(lambda ix: ix[1]))
+    else:
+        if _stop >= 0:
+            pipeline.append(ops.take(_stop))
 
-    if _stop < 0:
-        pipeline.append(ops.skip_last(-_stop))
+        if _start > 0:
+            pipeline.append(ops.skip(_start))
+        elif _start < 0:
+            pipeline.append(ops.take_last(-_start))
+
+        if _stop < 0:
+            pipeline.append(ops.skip_last(-_stop))
 
     if _step > 1:
         pipeline.append(ops.filter_indexed(lambda x, i: i % _step == 0))
